@@ -203,7 +203,22 @@ func serializeFloat(buf *bytes.Buffer, s string) {
 }
 
 func serializeDatetime(buf *bytes.Buffer, t time.Time) {
-	serializeDatetimeFromUnixNano(buf, t.UnixNano())
+	serializeInstant(buf, t.Unix(), t.Nanosecond())
+}
+
+// serializeInstant writes the key of an instant. The number of nanoseconds since the epoch fits into 64 bits only
+// between the years 1678 and 2262: instants outside that range are written as seconds and nanoseconds, so that
+// two of them that are 2^64 nanoseconds apart do not get the same key.
+func serializeInstant(buf *bytes.Buffer, sec int64, nsec int) {
+	const limit = int64(9223372035) // seconds; (limit + 1) * 1e9 still fits into an int64
+	if -limit < sec && sec < limit {
+		serializeDatetimeFromUnixNano(buf, sec*1e9+int64(nsec))
+		return
+	}
+	buf.Write([]byte{91, 68, 93})
+	buf.WriteString(value.Int64ToStr(sec))
+	buf.WriteByte('.')
+	buf.WriteString(value.Int64ToStr(int64(nsec)))
 }
 
 func serializeDatetimeFromUnixNano(buf *bytes.Buffer, t int64) {
